@@ -142,6 +142,11 @@ func addLifeStuff(r rng, p *sdl.Program) {
 			if j > 0 {
 				inst.Alias = fmt.Sprintf("r%d", ni)
 			}
+			if t.Init && r.p(0.4) {
+				// the runner works its order out while it initialises
+				raw := pick(r, orderVals)
+				inst.OrderRaw = &raw
+			}
 			ni++
 			p.Instances = append(p.Instances, inst)
 		}
